@@ -31,37 +31,63 @@ open Oq3 Oq3.Sema Oq3.Types Oq3.Symbols
 /-- the context with diagnostics appended -/
 def appendErrs (s : Ctx) (es : List SemErr) : Ctx :=
   { s with semanticErrors := s.semanticErrors ++ es }
-
-@[simp] theorem appendErrs_nil (s : Ctx) : appendErrs s [] = s := by
-  simp [appendErrs]
-
+@[simp] theorem appendErrs_nil (s : Ctx) : appendErrs s [] = s := by simp [appendErrs]
+@[simp] theorem appendErrs_append (s : Ctx) (a b : List SemErr) :
+    appendErrs (appendErrs s a) b = appendErrs s (a ++ b) := by simp [appendErrs]
 def err (k : SemanticErrorKind) (node : Ast.Span) : SemErr := ⟨k, node.start, node.stop⟩
 
-theorem insertError_run (k : SemanticErrorKind) (node : Ast.Span) (s : Ctx) :
-    insertError k node s = .ok ((), appendErrs s [err k node]) :=
-  (insertError_ok k node s _).mpr rfl
+@[simp] theorem run_insertError (k : SemanticErrorKind) (node : Ast.Span) (s : Ctx) :
+    insertError k node s = .ok ((), appendErrs s [err k node]) := rfl
+@[simp] theorem run_bind_insertError {β} (k : SemanticErrorKind) (node : Ast.Span) (f : Unit → M β) (s : Ctx) :
+    (insertError k node >>= f) s = f () (appendErrs s [err k node]) := rfl
+@[simp] theorem run_pure {α} (a : α) (s : Ctx) : (pure a : M α) s = .ok (a, s) := rfl
+@[simp] theorem run_bind_pure {α β} (a : α) (f : α → M β) (s : Ctx) : (pure a >>= f) s = f a s := rfl
+@[simp] theorem run_unwrap_some {α} (site : String) (a : α) (s : Ctx) : unwrap site (some a) s = .ok (a, s) := rfl
+@[simp] theorem run_bind_unwrap_some {α β} (site : String) (a : α) (f : α → M β) (s : Ctx) :
+    (unwrap site (some a) >>= f) s = f a s := rfl
+
 
 /-- kinds of a diagnostic list -/
 def kinds (es : List SemErr) : List SemanticErrorKind := es.map (·.kind)
 
+theorem bind_run_of_ok {α β} {x : M α} {f : α → M β} {s s1 : Ctx} {a : α}
+    (h : x s = .ok (a, s1)) : (x >>= f) s = f a s1 := by
+  show (StateT.bind x f) s = _
+  unfold StateT.bind
+  simp only [bind, Except.bind, h]
+
+theorem run_currentScopeType (s : Ctx) (top : Scope) (rest : List Scope)
+    (h : s.symbolTable.stack = top :: rest) : currentScopeType s = .ok (top.kind, s) := by
+  unfold currentScopeType
+  show (match s.symbolTable.stack with
+    | sc :: _ => (pure sc.kind : M ScopeType)
+    | [] => fail "current_scope: no scope") s = _
+  rw [h]; rfl
+
+theorem run_inGlobalScope (s : Ctx) (top : Scope) (rest : List Scope)
+    (h : s.symbolTable.stack = top :: rest) : inGlobalScope s = .ok (top.kind == .global, s) := by
+  unfold inGlobalScope
+  show (currentScopeType >>= fun k => pure (k == ScopeType.global)) s = _
+  rw [bind_run_of_ok (run_currentScopeType s top rest h)]; rfl
+
 /-! ### gate calls: parameter count, qubit count, not a gate -/
 
-/-- diagnostics of `gateCallCheck` -/
+/-- diagnostics of `gateCallCheck` (`al`, `ql`: the argument list and the qubit list of the call) -/
 def gateCallErrs (span : Ast.Span) (ql : Ast.QubitList) (al : Option Ast.ArgList)
     (gateId : Ast.Identifier) (symbolOk : Bool) (gateType : T) (numParams numQubits : Nat) :
     List SemErr :=
   match gateType with
   | .gate np nq =>
-    (if np != numParams then
-      [err .numGateParamsError (if numParams != 0 then (al.map (·.span)).getD gateId.span else gateId.span)]
-     else []) ++
-    (if nq != numQubits then
-      [err .numGateQubitsError (if numQubits == 0 then span else ql.span)]
-     else [])
+    (if np = numParams then []
+     else [err .numGateParamsError
+            (if numParams = 0 then gateId.span else (al.map (·.span)).getD gateId.span)]) ++
+    (if nq = numQubits then []
+     else [err .numGateQubitsError (if numQubits = 0 then span else ql.span)])
   | _ => if symbolOk then [err .incompatibleTypesError gateId.span] else []
 
-/-- the block always returns (given what its call site guarantees: the qubit list was already
-unwrapped, and parameters can only come from an argument list) and appends exactly `gateCallErrs` -/
+/-- the block returns normally — given what its call site guarantees: the qubit list was already
+unwrapped, and a non-zero parameter count can only come from an argument list — and appends
+exactly `gateCallErrs` -/
 theorem gateCallCheck_run (span : Ast.Span) (ql : Ast.QubitList) (argList : Option Ast.ArgList)
     (gateId : Ast.Identifier) (symbolResult : SymbolIdResult) (gateType : T)
     (numParams numQubits : Nat) (s : Ctx) (ha : numParams ≠ 0 → argList.isSome) :
@@ -69,16 +95,314 @@ theorem gateCallCheck_run (span : Ast.Span) (ql : Ast.QubitList) (argList : Opti
       .ok ((), appendErrs s
         (gateCallErrs span ql argList gateId symbolResult.isOk gateType numParams numQubits)) := by
   unfold gateCallCheck gateCallErrs
-  cases gateType <;> try (cases hok : symbolResult.isOk <;> simp [insertError_run, err] <;> rfl)
-  rename_i np nq
-  simp only []
-  by_cases h1 : np = numParams <;> by_cases h2 : nq = numQubits <;>
-    by_cases h3 : numParams = 0 <;> by_cases h4 : numQubits = 0 <;>
-    (try (cases argList with
-      | none => exact absurd rfl (by simpa using ha h3)
-      | some al => skip)) <;>
-    simp [h1, h2, h3, h4, M.bind_ok, insertError_run, unwrap, appendErrs, err, bne] <;>
-    (try rfl)
-  all_goals sorry
+  cases gateType
+  case gate np nq =>
+    cases numParams with
+    | zero =>
+      cases numQubits with
+      | zero => by_cases h1 : np = 0 <;> by_cases h2 : nq = 0 <;> simp [h1, h2, bne]
+      | succ m => by_cases h1 : np = 0 <;> by_cases h2 : nq = m + 1 <;> simp [h1, h2, bne]
+    | succ n =>
+      obtain ⟨al, rfl⟩ := Option.isSome_iff_exists.mp (ha (by simp))
+      cases numQubits with
+      | zero => by_cases h1 : np = n + 1 <;> by_cases h2 : nq = 0 <;> simp [h1, h2, bne]
+      | succ m => by_cases h1 : np = n + 1 <;> by_cases h2 : nq = m + 1 <;> simp [h1, h2, bne]
+  all_goals (cases symbolResult.isOk <;> simp)
+
+/-- **NumGateParamsError is logged iff the callee is a gate whose parameter count differs** -/
+theorem gate_params_iff (span : Ast.Span) (ql : Ast.QubitList) (al : Option Ast.ArgList)
+    (gateId : Ast.Identifier) (ok : Bool) (gateType : T) (numParams numQubits : Nat) :
+    SemanticErrorKind.numGateParamsError ∈
+        kinds (gateCallErrs span ql al gateId ok gateType numParams numQubits) ↔
+      ∃ np nq, gateType = .gate np nq ∧ np ≠ numParams := by
+  unfold gateCallErrs kinds
+  cases gateType
+  case gate np nq =>
+    by_cases h1 : np = numParams <;> by_cases h2 : nq = numQubits <;> simp [h1, h2, err] <;>
+      (try exact ⟨_, _, ⟨rfl, rfl⟩, ‹_›⟩)
+  all_goals (cases ok <;> simp [err])
+
+/-- **NumGateQubitsError is logged iff the callee is a gate whose qubit count differs** (modifiers
+are not taken into account by the code) -/
+theorem gate_qubits_iff (span : Ast.Span) (ql : Ast.QubitList) (al : Option Ast.ArgList)
+    (gateId : Ast.Identifier) (ok : Bool) (gateType : T) (numParams numQubits : Nat) :
+    SemanticErrorKind.numGateQubitsError ∈
+        kinds (gateCallErrs span ql al gateId ok gateType numParams numQubits) ↔
+      ∃ np nq, gateType = .gate np nq ∧ nq ≠ numQubits := by
+  unfold gateCallErrs kinds
+  cases gateType
+  case gate np nq =>
+    by_cases h1 : np = numParams <;> by_cases h2 : nq = numQubits <;> simp [h1, h2, err] <;>
+      (try exact ⟨_, _, ⟨rfl, rfl⟩, ‹_›⟩)
+  all_goals (cases ok <;> simp [err])
+
+/-- **IncompatibleTypesError on the gate name iff the name resolves to something that is not a
+gate** (an unresolved name already got `UndefGateError`) -/
+theorem not_a_gate_iff (span : Ast.Span) (ql : Ast.QubitList) (al : Option Ast.ArgList)
+    (gateId : Ast.Identifier) (ok : Bool) (gateType : T) (numParams numQubits : Nat) :
+    SemanticErrorKind.incompatibleTypesError ∈
+        kinds (gateCallErrs span ql al gateId ok gateType numParams numQubits) ↔
+      ok = true ∧ ∀ np nq, gateType ≠ .gate np nq := by
+  unfold gateCallErrs kinds
+  cases gateType
+  case gate np nq =>
+    by_cases h1 : np = numParams <;> by_cases h2 : nq = numQubits <;> simp [h1, h2, err] <;>
+      (try exact ⟨_, _, ⟨rfl, rfl⟩, ‹_›⟩)
+  all_goals (cases ok <;> simp [err])
+
+/-- a correct call of a gate gets none of the three diagnostics -/
+theorem gate_call_no_spurious (span : Ast.Span) (ql : Ast.QubitList) (al : Option Ast.ArgList)
+    (gateId : Ast.Identifier) (ok : Bool) (np nq : Nat) :
+    gateCallErrs span ql al gateId ok (.gate np nq) np nq = [] := by
+  simp [gateCallErrs]
+
+/-! ### operands of gate calls, `measure`, `reset`, `barrier`, `delay` -/
+
+def isQubitish : T → Bool
+  | .qubit | .hwqubit | .qubitArray _ => true
+  | _ => false
+
+def isQubitArray : T → Bool
+  | .qubitArray _ => true
+  | _ => false
+
+theorem gateOperandIdentCheck_run (typ : T) (node : Ast.Span) (s : Ctx) :
+    gateOperandIdentCheck typ node s =
+      .ok ((), appendErrs s (if isQubitish typ then [] else [err .incompatibleTypesError node])) := by
+  unfold gateOperandIdentCheck
+  cases typ <;> simp [isQubitish]
+
+theorem gateOperandIndexedCheck_run (typ : T) (node : Ast.Span) (s : Ctx) :
+    gateOperandIndexedCheck typ node s =
+      .ok ((), appendErrs s (if isQubitArray typ then [] else [err .incompatibleTypesError node])) := by
+  unfold gateOperandIndexedCheck
+  cases typ <;> simp [isQubitArray]
+
+/-- **operand kind**: a plain identifier operand is reported iff its type is not `Qubit`,
+`HardwareQubit` or `QubitArray`; an indexed operand iff its type is not `QubitArray` -/
+theorem operand_kind_iff (typ : T) (node : Ast.Span) (s s' : Ctx) :
+    (gateOperandIdentCheck typ node s = .ok ((), s') →
+      (s'.semanticErrors = s.semanticErrors ++ [err .incompatibleTypesError node] ↔
+        isQubitish typ = false) ∧
+      (s'.semanticErrors = s.semanticErrors ↔ isQubitish typ = true)) := by
+  intro h
+  rw [gateOperandIdentCheck_run] at h
+  simp only [Except.ok.injEq, Prod.mk.injEq, true_and] at h
+  subst h
+  cases hq : isQubitish typ <;> simp [appendErrs]
+
+theorem operand_kind_indexed_iff (typ : T) (node : Ast.Span) (s s' : Ctx) :
+    (gateOperandIndexedCheck typ node s = .ok ((), s') →
+      (s'.semanticErrors = s.semanticErrors ++ [err .incompatibleTypesError node] ↔
+        isQubitArray typ = false) ∧
+      (s'.semanticErrors = s.semanticErrors ↔ isQubitArray typ = true)) := by
+  intro h
+  rw [gateOperandIndexedCheck_run] at h
+  simp only [Except.ok.injEq, Prod.mk.injEq, true_and] at h
+  subst h
+  cases hq : isQubitArray typ <;> simp [appendErrs]
+
+/-! ### binary operators on quantum values -/
+
+def quantumBinopErrs (left right : TExpr) (l r : Ast.Expr) : List SemErr :=
+  (if isQuantum left.getType then [err .incompatibleTypesError l.span] else []) ++
+  (if isQuantum right.getType then [err .incompatibleTypesError r.span] else [])
+
+/-- at its call site both operand nodes exist (their translations were just unwrapped) -/
+theorem quantumBinopCheck_run (left right : TExpr) (l r : Ast.Expr) (s : Ctx) :
+    quantumBinopCheck left right (some l) (some r) s =
+      .ok ((), appendErrs s (quantumBinopErrs left right l r)) := by
+  unfold quantumBinopCheck quantumBinopErrs
+  cases h1 : isQuantum left.getType <;> cases h2 : isQuantum right.getType <;> simp
+
+/-- **a binary operator is reported iff one of its operands has a quantum type** (once per
+quantum operand, at that operand) -/
+theorem quantum_binop_iff (left right : TExpr) (l r : Ast.Expr) :
+    SemanticErrorKind.incompatibleTypesError ∈ kinds (quantumBinopErrs left right l r) ↔
+      isQuantum left.getType = true ∨ isQuantum right.getType = true := by
+  unfold quantumBinopErrs kinds
+  cases h1 : isQuantum left.getType <;> cases h2 : isQuantum right.getType <;> simp [err]
+
+/-! ### subroutine calls -/
+
+/-- `expected ≠ actual` needs the argument list node for the diagnostic; the parser always produces
+one for a call, `ha` records that -/
+theorem defArityCheck_run (expected numParams : Nat) (al : Ast.ArgList) (s : Ctx) :
+    defArityCheck expected numParams (some al) s =
+      .ok ((), appendErrs s (if expected = numParams then [] else [err .numDefParamsError al.span])) := by
+  unfold defArityCheck
+  by_cases h : expected = numParams <;> simp [h, bne]
+
+/-- **NumDefParamsError iff the number of arguments differs from the subroutine's** (under the
+guard that the callee is a subroutine — otherwise `call_expr_to_asg_texpr` panics, F15) -/
+theorem def_arity_iff (expected numParams : Nat) (al : Ast.ArgList) (s s' : Ctx)
+    (h : defArityCheck expected numParams (some al) s = .ok ((), s')) :
+    (s'.semanticErrors = s.semanticErrors ++ [err .numDefParamsError al.span] ↔
+      expected ≠ numParams) ∧
+    (s'.semanticErrors = s.semanticErrors ↔ expected = numParams) := by
+  rw [defArityCheck_run] at h
+  simp only [Except.ok.injEq, Prod.mk.injEq, true_and] at h
+  subst h
+  by_cases hq : expected = numParams <;> simp [appendErrs, hq]
+
+/-! ### assignment to a constant -/
+
+theorem mutateConstCheck_run (symbolOk : Bool) (symbolType : T) (node : Ast.Span) (s : Ctx) :
+    mutateConstCheck symbolOk symbolType node s =
+      .ok ((), appendErrs s
+        (if symbolOk && isConst symbolType then [err .mutateConstError node] else [])) := by
+  unfold mutateConstCheck
+  cases h : (symbolOk && isConst symbolType) <;> simp
+
+/-- **MutateConstError iff the assigned name resolves and its type is const** -/
+theorem mutate_const_iff (symbolOk : Bool) (symbolType : T) (node : Ast.Span) (s s' : Ctx)
+    (h : mutateConstCheck symbolOk symbolType node s = .ok ((), s')) :
+    (s'.semanticErrors = s.semanticErrors ++ [err .mutateConstError node] ↔
+      symbolOk = true ∧ isConst symbolType = true) ∧
+    (s'.semanticErrors = s.semanticErrors ↔ ¬ (symbolOk = true ∧ isConst symbolType = true)) := by
+  rw [mutateConstCheck_run] at h
+  simp only [Except.ok.injEq, Prod.mk.injEq, true_and] at h
+  subst h
+  cases symbolOk <;> cases isConst symbolType <;> simp [appendErrs]
+
+/-! ### global-scope rules -/
+
+theorem notGlobalCheck_run (node : Ast.Span) (s : Ctx) (top : Scope) (rest : List Scope)
+    (hst : s.symbolTable.stack = top :: rest) :
+    notGlobalCheck node s =
+      .ok ((), appendErrs s
+        (if top.kind = .global then [] else [err .notInGlobalScopeError node])) := by
+  unfold notGlobalCheck
+  show (inGlobalScope >>= fun b => if (!b) = true then insertError _ node else pure ()) s = _
+  rw [bind_run_of_ok (run_inGlobalScope s top rest hst)]
+  cases hk : top.kind <;> simp
+
+/-- **NotInGlobalScopeError (qubit declaration, `def`, array declaration) iff the current scope is
+not the global one** -/
+theorem not_global_iff (node : Ast.Span) (s s' : Ctx) (top : Scope) (rest : List Scope)
+    (hst : s.symbolTable.stack = top :: rest) (h : notGlobalCheck node s = .ok ((), s')) :
+    (s'.semanticErrors = s.semanticErrors ++ [err .notInGlobalScopeError node] ↔
+      top.kind ≠ .global) ∧
+    (s'.semanticErrors = s.semanticErrors ↔ top.kind = .global) := by
+  rw [notGlobalCheck_run node s top rest hst] at h
+  simp only [Except.ok.injEq, Prod.mk.injEq, true_and] at h
+  subst h
+  by_cases hk : top.kind = .global <;> simp [appendErrs, hk]
+
+theorem gateNotGlobalCheck_run (name : Ast.Name) (s : Ctx) (top : Scope) (rest : List Scope)
+    (hst : s.symbolTable.stack = top :: rest) :
+    gateNotGlobalCheck (some name) s =
+      .ok ((), appendErrs s
+        (if top.kind = .global then [] else [err .notInGlobalScopeError name.span])) := by
+  unfold gateNotGlobalCheck
+  show (inGlobalScope >>= fun b => if (!b) = true then do
+          let n ← unwrap "stmt_to_asg_stmt: Gate name() is None" (some name)
+          insertError .notInGlobalScopeError n.span
+        else pure ()) s = _
+  rw [bind_run_of_ok (run_inGlobalScope s top rest hst)]
+  cases hk : top.kind <;> simp
+
+/-- the `gate` variant (diagnostic at the gate's name) -/
+theorem not_global_gate_iff (name : Ast.Name) (s s' : Ctx) (top : Scope) (rest : List Scope)
+    (hst : s.symbolTable.stack = top :: rest) (h : gateNotGlobalCheck (some name) s = .ok ((), s')) :
+    (s'.semanticErrors = s.semanticErrors ++ [err .notInGlobalScopeError name.span] ↔
+      top.kind ≠ .global) ∧
+    (s'.semanticErrors = s.semanticErrors ↔ top.kind = .global) := by
+  rw [gateNotGlobalCheck_run name s top rest hst] at h
+  simp only [Except.ok.injEq, Prod.mk.injEq, true_and] at h
+  subst h
+  by_cases hk : top.kind = .global <;> simp [appendErrs, hk]
+
+theorem returnGlobalCheck_run (node : Ast.Span) (s : Ctx) (top : Scope) (rest : List Scope)
+    (hst : s.symbolTable.stack = top :: rest) :
+    returnGlobalCheck node s =
+      .ok ((), appendErrs s
+        (if top.kind = .global then [err .returnInGlobalScopeError node] else [])) := by
+  unfold returnGlobalCheck
+  show (currentScopeType >>= fun k => if (k == ScopeType.global) = true then
+          insertError .returnInGlobalScopeError node else pure ()) s = _
+  rw [bind_run_of_ok (run_currentScopeType s top rest hst)]
+  cases hk : top.kind <;> simp
+
+/-- **ReturnInGlobalScopeError iff the current scope is the global one** -/
+theorem return_global_iff (node : Ast.Span) (s s' : Ctx) (top : Scope) (rest : List Scope)
+    (hst : s.symbolTable.stack = top :: rest) (h : returnGlobalCheck node s = .ok ((), s')) :
+    (s'.semanticErrors = s.semanticErrors ++ [err .returnInGlobalScopeError node] ↔
+      top.kind = .global) ∧
+    (s'.semanticErrors = s.semanticErrors ↔ top.kind ≠ .global) := by
+  rw [returnGlobalCheck_run node s top rest hst] at h
+  simp only [Except.ok.injEq, Prod.mk.injEq, true_and] at h
+  subst h
+  by_cases hk : top.kind = .global <;> simp [appendErrs, hk]
+
+/-! ### delay -/
+
+def isDuration : T → Bool
+  | .duration _ => true
+  | _ => false
+
+theorem delayDurationCheck_run (duration : TExpr) (designator : Ast.Span) (s : Ctx) :
+    delayDurationCheck duration designator s =
+      .ok ((), appendErrs s
+        (if isDuration duration.getType then [] else [err .incompatibleTypesError designator])) := by
+  unfold delayDurationCheck
+  cases duration.getType <;> simp [isDuration]
+
+/-- **a delay is reported (at its designator) iff the duration expression's type is not
+`Duration`** — note that `Stretch` is reported too -/
+theorem delay_duration_iff (duration : TExpr) (designator : Ast.Span) (s s' : Ctx)
+    (h : delayDurationCheck duration designator s = .ok ((), s')) :
+    (s'.semanticErrors = s.semanticErrors ++ [err .incompatibleTypesError designator] ↔
+      isDuration duration.getType = false) ∧
+    (s'.semanticErrors = s.semanticErrors ↔ isDuration duration.getType = true) := by
+  rw [delayDurationCheck_run] at h
+  simp only [Except.ok.injEq, Prod.mk.injEq, true_and] at h
+  subst h
+  cases hq : isDuration duration.getType <;> simp [appendErrs]
+
+/-! ### the blocks are what the analysis functions run -/
+
+/-- `gate_call_expr_to_asg_stmt` = operands; parameters; gate look-up; then exactly `gateCallCheck`
+on the values just computed (so `gate_params_iff`/`gate_qubits_iff`/`not_a_gate_iff` describe every
+diagnostic the call node itself contributes) -/
+theorem gateCall_uses_check (fuel : Nat) (span : Ast.Span) (qubitList : Option Ast.QubitList)
+    (argList : Option Ast.ArgList) (identifier : Option Ast.Identifier)
+    (modifiers : List GateModifier) :
+    gateCallExprToAsgStmt (fuel + 1) (.mk span qubitList argList identifier) modifiers =
+    (do
+      let gateOperands ← qubitListToAsgTexpr fuel qubitList
+      let paramList ← match argList with
+        | some (.mk _ el) => do
+          let el ← unwrap "gate_call_expr_to_asg_stmt: arg_list expression_list() is None" el
+          pure (some (← expressionListToAsgTexpr fuel el))
+        | none => pure none
+      let numParams := match paramList with
+        | some ps => ps.length
+        | none => 0
+      let gateId ← unwrap "gate_call_expr_to_asg_stmt: identifier() is None" identifier
+      let (symbolResult, gateType) ← lookupGateSymbol gateId.text gateId.span
+      gateCallCheck span qubitList argList gateId symbolResult gateType numParams gateOperands.length
+      pure (some (.gateCall symbolResult paramList gateOperands modifiers))) := by
+  rfl
+
+/-- the `QuantumDeclarationStatement` arm starts with `notGlobalCheck` on the statement -/
+theorem quantumDecl_uses_check (fuel : Nat) (span : Ast.Span) (name : Option Ast.Name)
+    (hw : Option Ast.HardwareQubit) (qt : Option Ast.QubitType) :
+    stmtToAsgStmt (fuel + 1) (.quantumDeclarationStatement span name hw qt) =
+    (do
+      notGlobalCheck span
+      match name with
+      | none =>
+        let hwQubit ← unwrap "stmt_to_asg_stmt: QuantumDeclarationStatement hardware_qubit() is None" hw
+        pure (some (.declareHardwareQubit hwQubit.text))
+      | some name =>
+        let qubitType ← unwrap "stmt_to_asg_stmt: QuantumDeclarationStatement qubit_type() is None" qt
+        let width ← designatorToAsg qubitType.designator
+        let typ : T := match width with
+          | some width => .qubitArray (.d1 width)
+          | none => .qubit
+        let symbolId ← newBinding name.text typ span
+        pure (some (.declareQuantum symbolId))) := by
+  rfl
 
 end Oq3.Props.C13
